@@ -464,6 +464,9 @@ func (s *session) visitNode(sprint *sprint, run flows.Run, node flows.Node, trig
 
 			// check if this action has errored the run
 			if run.Status() == flows.RunStatusFailed {
+				// a flow pushed by an earlier action on this node mustn't be entered from a failed run
+				s.pushedFlow = nil
+
 				return step, nil, "", nil
 			}
 		}
